@@ -30,6 +30,7 @@ def parser():
     sub = p.add_subparsers(dest='command')
     cli.add_subparser_call_variant(sub)
     cli.add_subparser_generate_index(sub)
+    cli.add_subparser_update_index(sub)
     cli.add_subparser_index_gvf(sub)
     return p
 
@@ -83,9 +84,16 @@ def setup(c):
            '-p', os.path.join(d, 'proteome.fasta')]
     if c.get('index_dir'):
         idx = os.path.join(d, 'index')
+        # index_pools: an index directory that holds SEVERAL canonical pools - generateIndex with the first setting,
+        # updateIndex for every further one, in the given registration order; the run's own setting is cleavage_args
+        pools = c.get('index_pools') or [c.get('cleavage_args', [])]
         a = P.parse_args(['generateIndex', '-o', idx, '-q', '--cleavage-exception', c.get('exc', 'none')]
-                         + [str(x) for x in c.get('cleavage_args', [])] + [str(x) for x in c.get('ref_args', [])] + ref)
+                         + [str(x) for x in pools[0]] + [str(x) for x in c.get('ref_args', [])] + ref)
         a.func(a)
+        for extra in pools[1:]:
+            a = P.parse_args(['updateIndex', '--index-dir', idx, '-q', '--cleavage-exception', c.get('exc', 'none')]
+                             + [str(x) for x in extra])
+            a.func(a)
         ref = ['--index-dir', idx]
     if c.get('gvf_idx'):
         for p in gvfs:
